@@ -15,8 +15,21 @@
 //                          lookup predicates and key set to `map_deep`), axiom_string_from_str, and WEAK specs without ensures for
 //                          core::str::from_utf8, str::to_lowercase / to_uppercase / trim (only so that edited texts are decided).
 //                          Rewrite in get_module_names: the keys() iterator and the tail expression are bound to locals (2 replaces).
+//   VbaProject::new(r, len)   (entry) C18.project_new_is_container_then_from_cfb: `project_of_container(bytes of r, len, res)` -- bytes without
+//                          a valid compound-file header are an error; for a well-formed compound file (`cfb_parse` of unit cfb is Some,
+//                          len covers the input) a returned project satisfies everything from_cfb guarantees (`project_ok`) relative to
+//                          the logical content of exactly THESE bytes (the container handed to from_cfb is the one Cfb::new returned,
+//                          over the same reader, nothing read in between).
+//   Reader for Xlsx / Xlsb ::vba_project   (entry) over an A-zip model (entries found by exact name; bytes; declared size; may fail to open):
+//                          C18.vba_project_none_iff_no_readable_part (None iff there is no entry named exactly "xl/vbaProject.bin" that
+//                          can be opened), C18.vba_project_part_is_xl_vbaProject_bin (Some(Ok(Cow::Owned(vp))) with
+//                          project_of_container(bytes of THAT entry, its declared size, Ok(vp))), C18.vba_project_error_is_vba_variant
+//                          (Some(Err(Vba(e))) with project_of_container(.., Err(e))), archive unchanged.
+//                          Rewrites: `.map(Cow::Owned)` eta-expanded (replace?), `.map_err(X::Vba)` by rule R12.
 // Composed from contracts PROVED IN OTHER UNITS on the real text (here `external_body` on the extracted functions, clause text copied):
 //   unit cfb     Cfb::get_stream            requires wf; C13.get_stream_frame, stream_not_found, get_stream_reads_logical_stream
+//   unit cfb     Cfb::new                   C13,C20.new_rejects_invalid_header, C13,C20,C02,C18.new_parses_container -- PLUS the clause
+//                                           `Ok(c) ==> c.wf()`, which is NOT YET in unit cfb (checked: provable there as is; see the stub)
 //   unit vbadec  cfb::decompress_stream     C18.decode, bad_container_signature_rejected, C06.empty_container_rejected
 //   unit vbadec  skip, check_variable_record  C18.skip_ok, skip_err_iff_short, check_var_record_ok, check_var_record_wrong_id_rejected
 //   unit vbadec  read_modules               C18.module_count, module_name_stream_offset, modules_consumed
@@ -56,16 +69,35 @@
 use vstd::prelude::*;
 use vstd::std_specs::iter::IteratorSpec;
 use std::collections::BTreeMap;
+use std::cmp::min;
+use std::borrow::Cow;
 use std::path::PathBuf;
 
 verus! {
 
+// TRUSTED: 64-bit target (usize == u64; checked by rustc against the target): `f.size() as usize` keeps the declared size of a zip entry
+global size_of usize == 8;
+
 #[verifier::external_type_specification] #[verifier::external_body] pub struct ExIoError(std::io::Error);
+#[verifier::external_type_specification] #[verifier::external_body] pub struct ExParseFloatError(std::num::ParseFloatError);
+#[verifier::external_type_specification] #[verifier::external_body] pub struct ExParseIntError(std::num::ParseIntError);
+// ---- stand-ins for foreign error payload types of XlsxError / XlsbError (opaque; never inspected by the verified code)
+pub mod quick_xml {
+    pub struct Error;
+    pub mod events { pub mod attributes { pub struct AttrError; } }
+    pub mod encoding { pub struct EncodingError; }
+}
+// TRUSTED: A-zip -- zip::result::ZipError (zip 2.4): the payloads of Io / InvalidArchive / UnsupportedArchive are dropped (never inspected)
+pub mod zip { pub mod result { pub enum ZipError { Io, InvalidArchive, UnsupportedArchive, FileNotFound, InvalidPassword } } }
+/// `crate::vba::VbaError` as the xlsx / xlsb modules name it
+pub mod vba { pub use super::VbaError; }
 // TRUSTED: std::io::ErrorKind is a plain enum; `io::Error::from(kind)` builds an error value and never panics
 #[verifier::external_type_specification] pub struct ExErrorKind(std::io::ErrorKind);
 pub assume_specification [<std::io::Error as From<std::io::ErrorKind>>::from] (k: std::io::ErrorKind) -> std::io::Error;
 #[verifier::external_type_specification] #[verifier::external_body] pub struct ExPathBuf(std::path::PathBuf);
 
+//@@ item src/cfb.rs const RESERVED_SECTORS
+//@@ item src/cfb.rs const DIFSECT
 //@@ item src/cfb.rs const ENDOFCHAIN
 //@@ item src/cfb.rs enum CfbError
 /// `crate::cfb::{..}` as src/vba.rs names them
@@ -315,14 +347,174 @@ impl Cfb {
     pub closed spec fn wf(&self) -> bool { self.sectors.wf() && self.mini_sectors.wf() && self.mini_sectors.sz() == 64 && (self.sectors.sz() == 512 || self.sectors.sz() == 4096) }
 }
 
+
+// ---- [MS-CFB] logical content of a compound file as a function of its bytes (`cfb_parse`) -- text of unit cfb, kept in a module of its
+// own because its header helpers `u16_at` / `u32_at` bear the names of vbadec's (different) helpers
+pub mod cfbspec {
+use super::*;
+/// little-endian u32 words of a byte string (complete words only; up to 3 trailing bytes are not a word)
+#[verifier::opaque]
+pub open spec fn le32_words(s: Seq<u8>) -> Seq<u32> { Seq::new(s.len() / 4, |i: int| le32(s.subrange(4 * i, 4 * i + 4)) as u32) }
+// [MS-CFB] 2.2 compound file header (first 512 bytes), field offsets from the specification
+#[verifier::opaque]
+pub open spec fn u16_at(h: Seq<u8>, off: int) -> int { le16(h.subrange(off, off + 2)) }
+#[verifier::opaque]
+pub open spec fn u32_at(h: Seq<u8>, off: int) -> int { le32(h.subrange(off, off + 4)) }
+/// header signature D0 CF 11 E0 A1 B1 1A E1 at offset 0
+pub open spec fn ole_signature() -> Seq<u8> { seq![0xD0u8, 0xCFu8, 0x11u8, 0xE0u8, 0xA1u8, 0xB1u8, 0x1Au8, 0xE1u8] }
+pub open spec fn hdr_signature_ok(h: Seq<u8>) -> bool { h.len() >= 8 && h.subrange(0, 8) == ole_signature() }
+pub open spec fn hdr_sector_shift(h: Seq<u8>) -> int { u16_at(h, 30) }
+pub open spec fn hdr_mini_sector_shift(h: Seq<u8>) -> int { u16_at(h, 32) }
+pub open spec fn hdr_num_dir_sectors(h: Seq<u8>) -> int { u32_at(h, 40) }
+pub open spec fn hdr_num_fat_sectors(h: Seq<u8>) -> int { u32_at(h, 44) }
+pub open spec fn hdr_first_dir_sector(h: Seq<u8>) -> int { u32_at(h, 48) }
+pub open spec fn hdr_first_mini_fat_sector(h: Seq<u8>) -> int { u32_at(h, 60) }
+pub open spec fn hdr_num_mini_fat_sectors(h: Seq<u8>) -> int { u32_at(h, 64) }
+pub open spec fn hdr_first_difat_sector(h: Seq<u8>) -> int { u32_at(h, 68) }
+pub open spec fn hdr_num_difat_sectors(h: Seq<u8>) -> int { u32_at(h, 72) }
+/// the 109 DIFAT entries stored in the header
+pub open spec fn hdr_difat(h: Seq<u8>) -> Seq<u32> { le32_words(h.subrange(76, 512)) }
+/// sector size selected by the sector shift: 9 -> 512 (version 3), 12 -> 4096 (version 4)
+pub open spec fn hdr_sector_size(h: Seq<u8>) -> int { if hdr_sector_shift(h) == 9 { 512 } else { 4096 } }
+/// header accepted: signature, sector shift 9 or 12, mini sector shift 6
+pub open spec fn hdr_valid(h: Seq<u8>) -> bool {
+    h.len() >= 512 && hdr_signature_ok(h) && (hdr_sector_shift(h) == 9 || hdr_sector_shift(h) == 12) && hdr_mini_sector_shift(h) == 6
+}
+
+// TRUSTED: (A-enc) UTF-16LE decoding of encoding_rs is an uninterpreted function of the bytes
+pub uninterp spec fn dec16(b: Seq<u8>) -> Seq<char>;
+/// index of the first NUL character, or the length
+pub open spec fn first_nul(s: Seq<char>) -> int
+    decreases s.len()
+{
+    if s.len() == 0 || s[0] == '\0' { 0 } else { 1 + first_nul(s.skip(1)) }
+}
+/// [MS-CFB] 2.6.1 directory entry name: UTF-16 text of the 64-byte name field up to its terminating NUL
+pub open spec fn dir_name(b: Seq<u8>) -> Seq<char> { dec16(b).take(first_nul(dec16(b))) }
+/// [MS-CFB] 2.6.1 directory entry (128 bytes): name @0..64, starting sector @116, stream size @120 (32 bits meaningful for 512-byte sectors)
+#[verifier::opaque]
+pub open spec fn dir_ent(e: Seq<u8>, size: int) -> DirEnt {
+    DirEnt {
+        name: dir_name(e.subrange(0, 64)),
+        start: le32(e.subrange(116, 120)) as u32,
+        len: (if size == 512 { le32(e.subrange(120, 124)) } else { le64(e.subrange(120, 128)) }) as nat,
+    }
+}
+#[verifier::opaque]
+pub open spec fn dir_entries(stream: Seq<u8>, size: int) -> Seq<DirEnt> {
+    Seq::new((stream.len() / 128) as nat, |i: int| dir_ent(stream.subrange(128 * i, 128 * i + 128), size))
+}
+/// [MS-CFB] 2.5 DIFAT sectors: (size/4 - 1) FAT sector ids followed by the id of the next DIFAT sector
+pub open spec fn difat_walk(data: Seq<u8>, size: int, next: u32, fuel: nat) -> Option<Seq<u32>>
+    decreases fuel
+{
+    if next >= 0xFFFF_FFFAu32 { Some(Seq::<u32>::empty()) }
+    else if fuel == 0 || !sector_in(data, size, next as int) { None }
+    else {
+        let w = le32_words(sector(data, size, next as int));
+        match difat_walk(data, size, w.last(), (fuel - 1) as nat) {
+            Some(t) => Some(w.drop_last() + t),
+            None => None,
+        }
+    }
+}
+/// DIFAT entries that name a FAT sector (FREESECT and the other special values do not)
+pub open spec fn fat_sector_ids(d: Seq<u32>) -> Seq<u32>
+    decreases d.len()
+{
+    if d.len() == 0 { Seq::<u32>::empty() }
+    else if d.last() < 0xFFFF_FFFCu32 { fat_sector_ids(d.drop_last()).push(d.last()) }
+    else { fat_sector_ids(d.drop_last()) }
+}
+/// the FAT: concatenation of the FAT sectors read as little-endian u32 words
+pub open spec fn fat_of(data: Seq<u8>, size: int, ids: Seq<u32>) -> Seq<u32>
+    decreases ids.len()
+{
+    if ids.len() == 0 { Seq::<u32>::empty() } else { fat_of(data, size, ids.drop_last()) + le32_words(sector(data, size, ids.last() as int)) }
+}
+/// logical content of the compound file `inp` (None: not a well-formed compound file within `fuel` chain steps)
+#[verifier::opaque]
+pub open spec fn cfb_parse(inp: Seq<u8>, fuel: nat) -> Option<Parsed> {
+    if !hdr_valid(inp) { None } else {
+        let size = hdr_sector_size(inp);
+        let data = inp.skip(size);
+        let walk = difat_walk(data, size, hdr_first_difat_sector(inp) as u32, fuel);
+        if inp.len() < size || walk is None { None } else {
+            let ids = fat_sector_ids(hdr_difat(inp) + walk.unwrap());
+            let fat = fat_of(data, size, ids);
+            let dir_start = hdr_first_dir_sector(inp) as u32;
+            if !all_in(data, size, ids) || !chain_ok(data, size, fat, dir_start, fuel) { None } else {
+                let dirs = dir_entries(stream_bytes(data, size, fat, dir_start, hdr_num_dir_sectors(inp) * size, fuel), size);
+                // [MS-CFB] 2.6.3: the root entry's start sector is ENDOFCHAIN exactly when the file has no mini stream -- legal in either version
+                if dirs.len() == 0 { None }
+                else if hdr_num_mini_fat_sectors(inp) == 0 {
+                    Some(Parsed { size, data, fat, dirs, mini_fat: Seq::<u32>::empty(), mini_stream: Seq::<u8>::empty() })
+                } else {
+                    let mf_start = hdr_first_mini_fat_sector(inp) as u32;
+                    if !chain_ok(data, size, fat, dirs[0].start, fuel) || !chain_ok(data, size, fat, mf_start, fuel) { None } else {
+                        Some(Parsed { size, data, fat, dirs,
+                            mini_fat: le32_words(stream_bytes(data, size, fat, mf_start, hdr_num_mini_fat_sectors(inp) * size, fuel)),
+                            mini_stream: stream_bytes(data, size, fat, dirs[0].start, dirs[0].len as int, fuel) })
+                    }
+                }
+            }
+        }
+    }
+}
+
+
+} // mod cfbspec
+use cfbspec::{cfb_parse, hdr_valid};
+
+//@@ item src/cfb.rs struct Header
+//@@ impl src/cfb.rs Header
+// present only so that the (unverified) text of Cfb::new compiles
+//@@ fn src/cfb.rs Header::from_reader external_body
+//@@ end
+//@@ endimpl
+//@@ impl src/cfb.rs Directory
+//@@ fn src/cfb.rs Directory::from_slice external_body
+//@@ end
+//@@ endimpl
+//@@ fn src/utils.rs to_u32 external_body
+//@@ end
 //@@ impl src/cfb.rs Sectors
 // present only so that the (unverified) text of Cfb::get_stream compiles
+//@@ fn src/cfb.rs Sectors::new external_body
+//@@ end
 //@@ fn src/cfb.rs Sectors::get external_body
 //@@ end
 //@@ fn src/cfb.rs Sectors::get_chain external_body
 //@@ end
 //@@ endimpl
 //@@ impl src/cfb.rs Cfb
+// TRUSTED: contract proved in unit cfb on the real text (clauses C13,C20.new_rejects_invalid_header and C13,C20,C02,C18.new_parses_container:
+// identical text).
+// TRUSTED: clause C13,C18.new_establishes_representation_invariant of unit cfb, `res matches Ok(c) ==> c.wf()` (the representation invariant that Cfb::get_stream requires holds
+// for EVERY container Cfb::new returns, not only for well-formed input: sector size 512 / 4096 is checked by Header::from_reader, the mini
+// sectors are built with size 64).
+//@@ fn src/cfb.rs Cfb::new external_body ret=res
+//@@ replace /Header::from_reader\(&mut reader\)/ (only so that the unverified body compiles against the A-io stand-in of `Read`, which has no `impl Read for &mut R`; same rewrite as in unit cfb)
+Header::from_reader(reader)
+//@@ sig
+    ensures
+        !hdr_valid((*old(reader)).rem()) ==> res is Err,
+        forall|fuel: nat| #[trigger] cfb_parse((*old(reader)).rem(), fuel) is Some && len as int >= (*old(reader)).rem().len() ==> (match res {
+            Ok(c) => {
+                let p = cfb_parse((*old(reader)).rem(), fuel).unwrap();
+                &&& c.wf()
+                &&& c.ssz() == p.size
+                &&& c.fat() == p.fat
+                &&& c.dirs() == p.dirs
+                &&& c.mini_fat() == p.mini_fat
+                &&& c.mini_stream() == p.mini_stream
+                &&& c.space(final(reader)) == p.data
+                &&& (*final(reader)).io_failed() == (*old(reader)).io_failed()
+            },
+            Err(e) => e is Io && (*final(reader)).io_failed(),
+        }),
+        res matches Ok(c) ==> c.wf(),
+//@@ end
 // TRUSTED: contract proved in unit cfb on the real text (requires and clauses C13.get_stream_frame, C13.stream_not_found,
 // C13.get_stream_reads_logical_stream: identical text; the other clauses of unit cfb are not needed here)
 //@@ fn src/cfb.rs Cfb::get_stream external_body ret=res
@@ -939,7 +1131,41 @@ pub assume_specification[ str::to_uppercase ](s: &str) -> (r: String);
 pub assume_specification[ str::trim ](s: &str) -> (r: &str);
 
 
+
+// ---- VbaProject::new: the project of a compound file given as bytes
+/// everything from_cfb guarantees about a project `vp` read from a container with logical content p0
+pub open spec fn project_ok(p0: Parsed, vp: VbaProject) -> bool {
+    let w = the_run(p0, vp);
+    run_ok(p0, w, vp) && run_keys(w, vp) && run_last_binding(w, vp) && run_offsets_in_streams(w) && run_streams_exist(p0.dirs, w)
+}
+/// `res` is what opening the bytes `inp` as a compound file ([MS-CFB], `cfb_parse` of unit cfb) and reading the VBA project from THAT
+/// container gives: bytes that do not start with a valid compound-file header are an error; for a well-formed compound file whose length
+/// is covered by `len`, a project is described (`project_ok`) by the logical content of exactly these bytes
+#[verifier::opaque]
+pub open spec fn project_of_container(inp: Seq<u8>, len: int, res: Result<VbaProject, VbaError>) -> bool {
+    &&& (!hdr_valid(inp) ==> res is Err)
+    &&& forall|fuel: nat| #[trigger] cfb_parse(inp, fuel) is Some && len >= inp.len() ==> (match res {
+            Ok(vp) => project_ok(cfb_parse(inp, fuel).unwrap(), vp),
+            Err(_) => true,
+        })
+}
 //@@ impl src/vba.rs VbaProject
+//@@ fn src/vba.rs VbaProject::new props=C18 entry ret=res
+//@@ sig
+    ensures
+        //# C18.project_new_is_container_then_from_cfb
+        project_of_container((*old(r)).rem(), len as int, res),
+//@@ body
+        let ghost inp = (*r).rem();
+        proof { reveal(project_of_container); }
+//@@ before /VbaProject::from_cfb\(/
+        let ghost p1 = cfb.parsed(r);
+        proof {
+            // the container handed to from_cfb is the one Cfb::new built from these bytes, over the same reader: its logical content is
+            // the logical content of the bytes
+            assert forall|fuel: nat| #[trigger] cfb_parse(inp, fuel) is Some && len as int >= inp.len() implies p1 == cfb_parse(inp, fuel).unwrap() by {}
+        }
+//@@ end
 //@@ fn src/vba.rs VbaProject::from_cfb props=C18 entry ret=res
 //@@ sig
     requires
@@ -1142,5 +1368,145 @@ let __keys = self.modules.keys();
 //@@ end
 //@@ endimpl
 
+
+// =====================================================================================================================
+// Reader::vba_project of the zip-based formats (src/xlsx/mod.rs, src/xlsb/mod.rs): which part is read, with which length
+// =====================================================================================================================
+use zip::result::ZipError;
+// TRUSTED: (A-io) std::io::Seek: only named as a bound of the reader type parameter here
+pub trait Seek: Read {}
+// TRUSTED: derive(Clone) of VbaProject (needed for `Cow<'_, VbaProject>`; never called by the verified text)
+impl Clone for VbaProject {
+    #[verifier::external_body]
+    fn clone(&self) -> Self { unimplemented!() }
+}
+// ---- A-zip: the zip container.  TRUSTED: `ZipArchive` / `ZipFile` are stand-ins for zip::read::{ZipArchive, ZipFile} (zip 2.4), in the
+// style of units xlsxparts / ctors.  The archive is a set of entries found by EXACT name; an entry has bytes (what reading it delivers),
+// a declared uncompressed size (central directory field, what `ZipFile::size` returns) and may fail to open (unsupported method,
+// encryption, I/O).  ASSUMED AND NOT VERIFIED: central directory parsing and inflate.  Opening or reading an entry never changes the archive.
+#[verifier::external_body]
+#[verifier::accept_recursive_types(RS)]
+pub struct ZipArchive<RS> { _p: core::marker::PhantomData<RS> }
+/// the archive has an entry with exactly this name
+pub uninterp spec fn has_entry<RS>(zip: ZipArchive<RS>, name: Seq<char>) -> bool;
+/// .. and that entry can be opened for reading
+pub uninterp spec fn entry_opens<RS>(zip: ZipArchive<RS>, name: Seq<char>) -> bool;
+/// the (uncompressed) bytes of the entry / its declared uncompressed size
+pub uninterp spec fn entry_bytes<RS>(zip: ZipArchive<RS>, name: Seq<char>) -> Seq<u8>;
+pub uninterp spec fn entry_size<RS>(zip: ZipArchive<RS>, name: Seq<char>) -> u64;
+#[verifier::external_body]
+pub struct ZipFile<'a> { _p: core::marker::PhantomData<&'a ()> }
+pub uninterp spec fn zf_rem<'a>(f: ZipFile<'a>) -> Seq<u8>;
+pub uninterp spec fn zf_failed<'a>(f: ZipFile<'a>) -> bool;
+pub uninterp spec fn zf_size<'a>(f: ZipFile<'a>) -> u64;
+impl<'a> Read for ZipFile<'a> {
+    open spec fn rem(&self) -> Seq<u8> { zf_rem(*self) }
+    open spec fn io_failed(&self) -> bool { zf_failed(*self) }
+    #[verifier::external_body]
+    fn read(&mut self, buf: &mut [u8]) -> (r: Result<usize, std::io::Error>) { unimplemented!() }
+    #[verifier::external_body]
+    fn read_exact(&mut self, buf: &mut [u8]) -> (r: Result<(), std::io::Error>) { unimplemented!() }
+}
+impl<'a> ZipFile<'a> {
+    // TRUSTED: A-zip -- zip::read::ZipFile::size ("Get the size of the file, in bytes, when uncompressed": the declared size)
+    #[verifier::external_body]
+    pub fn size(&self) -> (n: u64)
+        ensures n == zf_size(*self),
+    { unimplemented!() }
+}
+impl<RS: Read + Seek> ZipArchive<RS> {
+    // TRUSTED: A-zip -- zip::read::ZipArchive::by_name ("Search for a file entry by name"): exact comparison; Err(FileNotFound) exactly when
+    // there is no such entry; Ok exactly when the entry exists and can be opened; the opened entry delivers the entry's bytes
+    #[verifier::external_body]
+    pub fn by_name<'a>(&'a mut self, name: &str) -> (r: Result<ZipFile<'a>, ZipError>)
+        ensures
+            *final(self) == *old(self),
+            r matches Err(ZipError::FileNotFound) <==> !has_entry(*old(self), name@),
+            r is Ok <==> has_entry(*old(self), name@) && entry_opens(*old(self), name@),
+            r matches Ok(f) ==> zf_rem(f) == entry_bytes(*old(self), name@) && zf_size(f) == entry_size(*old(self), name@),
+    { unimplemented!() }
+}
+/// [MS-OFFVBA]/ECMA-376: the VBA project part of a macro-enabled workbook (xlsm / xlsb) as calamine looks it up
+pub open spec fn vba_part() -> Seq<char> { "xl/vbaProject.bin"@ }
+
+//@@ item src/xlsx/mod.rs enum XlsxError
+//@@ item src/xlsb/mod.rs enum XlsbError
+//@@ item src/lib.rs struct Dimensions keep_attrs
+//@@ item src/lib.rs enum SheetType
+//@@ item src/lib.rs enum SheetVisible
+//@@ item src/lib.rs struct Sheet
+//@@ item src/lib.rs struct Metadata
+//@@ item src/lib.rs enum HeaderRow keep_attrs
+//@@ item src/formats.rs enum CellFormat
+//@@ item src/xlsx/mod.rs type Tables
+//@@ item src/xlsx/mod.rs struct Xlsx cfg_off=picture
+//@@ item src/xlsx/mod.rs struct XlsxOptions
+//@@ item src/xlsb/mod.rs struct XlsbOptions
+//@@ item src/xlsb/mod.rs struct Xlsb cfg_off=picture
+impl<RS> Xlsx<RS> { pub closed spec fn zipv(&self) -> ZipArchive<RS> { self.zip } }
+impl<RS> Xlsb<RS> { pub closed spec fn zipv(&self) -> ZipArchive<RS> { self.zip } }
+
+// Stand-in for the trait `Reader` of src/lib.rs, restricted to the method under contract in this unit (signature copied)
+pub trait Reader<RS>: Sized
+where
+    RS: Read + Seek,
+{
+    type Error;
+    fn vba_project(&mut self) -> Option<Result<Cow<'_, VbaProject>, Self::Error>>;
+}
+
+//@@ impl src/xlsx/mod.rs "Reader<RS> for Xlsx<RS>"
+//@@ item src/xlsx/mod.rs impl_type "Reader<RS> for Xlsx<RS>::type Error"
+//@@ fn src/xlsx/mod.rs "Reader<RS> for Xlsx<RS>::vba_project" props=C18 entry ret=res r12
+//@@ sig
+    ensures
+        //# C18.vba_project_archive_unchanged
+        final(self).zipv() == old(self).zipv(),
+        //# C18.vba_project_none_iff_no_readable_part
+        res is None <==> !(has_entry(old(self).zipv(), vba_part()) && entry_opens(old(self).zipv(), vba_part())),
+        //# C18.vba_project_part_is_xl_vbaProject_bin
+        res matches Some(Ok(c)) ==> (c matches Cow::Owned(vp)
+            && project_of_container(entry_bytes(old(self).zipv(), vba_part()), entry_size(old(self).zipv(), vba_part()) as int, Ok::<VbaProject, VbaError>(vp))),
+        //# C18.vba_project_error_is_vba_variant
+        res matches Some(Err(e)) ==> (e matches XlsxError::Vba(ve)
+            && project_of_container(entry_bytes(old(self).zipv(), vba_part()), entry_size(old(self).zipv(), vba_part()) as int, Err::<VbaProject, VbaError>(ve))),
+//@@ replace? /\.map\(Cow::Owned\)/ Verus does not support a datatype constructor as a function value; eta-expanded, same function
+.map(|__v: VbaProject| -> (__c: Cow<'_, VbaProject>) ensures __c == Cow::<'_, VbaProject>::Owned(__v) { Cow::Owned(__v) })
+//@@ end
+//@@ endimpl
+
+//@@ impl src/xlsb/mod.rs "Reader<RS> for Xlsb<RS>"
+//@@ item src/xlsb/mod.rs impl_type "Reader<RS> for Xlsb<RS>::type Error"
+//@@ fn src/xlsb/mod.rs "Reader<RS> for Xlsb<RS>::vba_project" props=C18 entry ret=res r12
+//@@ sig
+    ensures
+        //# C18.vba_project_archive_unchanged
+        final(self).zipv() == old(self).zipv(),
+        //# C18.vba_project_none_iff_no_readable_part
+        res is None <==> !(has_entry(old(self).zipv(), vba_part()) && entry_opens(old(self).zipv(), vba_part())),
+        //# C18.vba_project_part_is_xl_vbaProject_bin
+        res matches Some(Ok(c)) ==> (c matches Cow::Owned(vp)
+            && project_of_container(entry_bytes(old(self).zipv(), vba_part()), entry_size(old(self).zipv(), vba_part()) as int, Ok::<VbaProject, VbaError>(vp))),
+        //# C18.vba_project_error_is_vba_variant
+        res matches Some(Err(e)) ==> (e matches XlsbError::Vba(ve)
+            && project_of_container(entry_bytes(old(self).zipv(), vba_part()), entry_size(old(self).zipv(), vba_part()) as int, Err::<VbaProject, VbaError>(ve))),
+//@@ closure 0
+ -> (x: Result<Cow<'_, VbaProject>, XlsbError>)
+    ensures
+        //# C18.vba_project_part_is_xl_vbaProject_bin
+        x matches Ok(c) ==> (c matches Cow::Owned(vp) && project_of_container(zf_rem(f), zf_size(f) as int, Ok::<VbaProject, VbaError>(vp))),
+        //# C18.vba_project_error_is_vba_variant
+        x matches Err(e) ==> (e matches XlsbError::Vba(ve) && project_of_container(zf_rem(f), zf_size(f) as int, Err::<VbaProject, VbaError>(ve))),
+//@@ replace? /\.map\(Cow::Owned\)/ Verus does not support a datatype constructor as a function value; eta-expanded, same function
+.map(|__v: VbaProject| -> (__c: Cow<'_, VbaProject>) ensures __c == Cow::<'_, VbaProject>::Owned(__v) { Cow::Owned(__v) })
+//@@ end
+//@@ endimpl
+
 } // verus!
+// stand-in for encoding_rs (only referenced from the external_body of Directory::from_slice, never seen by Verus)
+pub struct Encoding;
+impl Encoding {
+    pub fn decode<'a>(&'static self, _b: &'a [u8]) -> (std::borrow::Cow<'a, str>, &'static Encoding, bool) { unimplemented!() }
+}
+pub static UTF_16LE: &Encoding = &Encoding;
 fn main() {}
